@@ -714,44 +714,156 @@ func specPreorderAll(roots []*Node, i int) []*Node {
 // value is nil or was returned by one of the With* constructors below (closed world; not tracked through slices). Each
 // constructor's closure is verified against the protocol optionFn (it touches nothing but the configuration and keeps
 // "massive implies a context") and against what it is documented to set.
+// optKind / optStr / optStrs are uninterpreted attributes of Option values: the closure of each constructor *defines* them
+// for itself (defines clauses), the constructor's contract hands them to its caller, the protocol says what an option of
+// each kind does to the configuration, and newConfig's postcondition says what a list of options amounts to. This is what
+// lets the CLI contracts (C16) state that a flag reaches the library as the option it stands for.
+const (
+	optKOther   = 0
+	optKTarget  = 1
+	optKExt     = 2
+	optKStrict  = 3
+	optKDry     = 4
+	optKMassive = 5
+	optKJSON    = 6
+	optKYAML    = 7
+	optKTOML    = 8
+)
+
+//@ spec gtree.optKind
+//@   opaque
+func optKind(o Option) int { return 0 }
+
+//@ spec gtree.optStr
+//@   opaque
+func optStr(o Option) string { return "" }
+
+//@ spec gtree.optStrs
+//@   opaque
+func optStrs(o Option) []string { return nil }
+
+// specHasOpt: one of the first i options is a (non-nil) option of the given kind
+//@ spec gtree.specHasOpt
+//@   fuel 7
+//@   decreases i
+func specHasOpt(opts []Option, kind int, i int) bool {
+	if i <= 0 || i > len(opts) {
+		return false
+	}
+	return (opts[i-1] != nil && optKind(opts[i-1]) == kind) || specHasOpt(opts, kind, i-1)
+}
+
+// specLastOptStr: the string attribute of the last option of the given kind among the first i, def if there is none
+//@ spec gtree.specLastOptStr
+//@   fuel 7
+//@   decreases i
+func specLastOptStr(opts []Option, kind int, i int, def string) string {
+	if i <= 0 || i > len(opts) {
+		return def
+	}
+	if opts[i-1] != nil && optKind(opts[i-1]) == kind {
+		return optStr(opts[i-1])
+	}
+	return specLastOptStr(opts, kind, i-1, def)
+}
+
+// appending an option does not change what the options before it amount to (induction on i)
+//@ lemma gtree.lemmaHasOptPrefix
+//@   nowf
+//@   requires rng: 0 <= i && i <= len(opts)
+//@   ensures eq: specHasOpt(push(opts, o), kind, i) == specHasOpt(opts, kind, i)
+//@   trigger specHasOpt(push(opts, o), kind, i)
+//@   decreases i
+func lemmaHasOptPrefix(opts []Option, o Option, kind int, i int) {
+	if i > 0 {
+		lemmaHasOptPrefix(opts, o, kind, i-1)
+	}
+}
+
+//@ lemma gtree.lemmaLastOptStrPrefix
+//@   nowf
+//@   requires rng: 0 <= i && i <= len(opts)
+//@   ensures eq: specLastOptStr(push(opts, o), kind, i, def) == specLastOptStr(opts, kind, i, def)
+//@   trigger specLastOptStr(push(opts, o), kind, i, def)
+//@   decreases i
+func lemmaLastOptStrPrefix(opts []Option, o Option, kind int, i int, def string) {
+	if i > 0 {
+		lemmaLastOptStrPrefix(opts, o, kind, i-1, def)
+	}
+}
+
 //@ pred configOK(c *config): c != nil && (c.massive ==> c.ctx != nil)
 //@ protocol optionFn(c)
 //@   requires ok: configOK(c)
 //@   modifies c.lastNodeFormat.directly, c.lastNodeFormat.indirectly, c.intermedialNodeFormat.directly, c.intermedialNodeFormat.indirectly, c.massive, c.ctx, c.encode, c.dryrun, c.fileExtensions, c.targetDir, c.strictVerify, c.noUseIterOfSimpleOutput
 //@   ensures ok': configOK(c)
+//@   ensures strict [C16,C08]: (optKind(self) == optKStrict ==> c.strictVerify) && (optKind(self) != optKStrict ==> c.strictVerify == old(c.strictVerify))
+//@   ensures target [C16,C06]: (optKind(self) == optKTarget ==> c.targetDir == optStr(self)) && (optKind(self) != optKTarget ==> c.targetDir == old(c.targetDir))
+//@   ensures ext [C16,C06]: (optKind(self) == optKExt ==> c.fileExtensions == optStrs(self)) && (optKind(self) != optKExt ==> c.fileExtensions == old(c.fileExtensions))
+//@   ensures dry [C16,C09]: (optKind(self) == optKDry ==> c.dryrun) && (optKind(self) != optKDry ==> c.dryrun == old(c.dryrun))
+//@   ensures massive [C16]: (optKind(self) == optKMassive ==> c.massive) && (optKind(self) != optKMassive ==> c.massive == old(c.massive))
+//@   ensures encode [C16,C04]: (optKind(self) == optKJSON ==> c.encode == encodeJSON) && (optKind(self) == optKYAML ==> c.encode == encodeYAML) && (optKind(self) == optKTOML ==> c.encode == encodeTOML) && (optKind(self) != optKJSON && optKind(self) != optKYAML && optKind(self) != optKTOML ==> c.encode == old(c.encode))
 //@ closure gtree.WithBranchFormatIntermedialNode#1
 //@   implements optionFn
+//@   defines optKind(self) == optKOther
 //@   ensures set [C01]: c.intermedialNodeFormat.directly == directly && c.intermedialNodeFormat.indirectly == indirectly && c.lastNodeFormat.directly == old(c.lastNodeFormat.directly) && c.lastNodeFormat.indirectly == old(c.lastNodeFormat.indirectly)
 //@ closure gtree.WithBranchFormatLastNode#1
 //@   implements optionFn
+//@   defines optKind(self) == optKOther
 //@   ensures set [C01]: c.lastNodeFormat.directly == directly && c.lastNodeFormat.indirectly == indirectly && c.intermedialNodeFormat.directly == old(c.intermedialNodeFormat.directly) && c.intermedialNodeFormat.indirectly == old(c.intermedialNodeFormat.indirectly)
 //@ closure gtree.WithMassive#1
 //@   implements optionFn
+//@   defines optKind(self) == optKMassive
 //@   ensures set [C12]: c.massive && c.ctx != nil
 //@ closure gtree.WithEncodeJSON#1
 //@   implements optionFn
+//@   defines optKind(self) == optKJSON
 //@   ensures set [C04]: c.encode == encodeJSON
 //@ closure gtree.WithEncodeYAML#1
 //@   implements optionFn
+//@   defines optKind(self) == optKYAML
 //@   ensures set [C04]: c.encode == encodeYAML
 //@ closure gtree.WithEncodeTOML#1
 //@   implements optionFn
+//@   defines optKind(self) == optKTOML
 //@   ensures set [C04]: c.encode == encodeTOML
 //@ closure gtree.WithDryRun#1
 //@   implements optionFn
+//@   defines optKind(self) == optKDry
 //@   ensures set [C09]: c.dryrun && c.massive == old(c.massive) && c.encode == old(c.encode)
 //@ closure gtree.WithFileExtensions#1
 //@   implements optionFn
+//@   defines optKind(self) == optKExt && optStrs(self) == extensions
 //@   ensures set [C06,C09]: c.fileExtensions == extensions
 //@ closure gtree.WithTargetDir#1
 //@   implements optionFn
+//@   defines optKind(self) == optKTarget && optStr(self) == dir
 //@   ensures set [C06,C07,C08]: c.targetDir == dir
 //@ closure gtree.WithStrictVerify#1
 //@   implements optionFn
+//@   defines optKind(self) == optKStrict
 //@   ensures set [C08]: c.strictVerify
 //@ closure gtree.WithNoUseIterOfSimpleOutput#1
 //@   implements optionFn
+//@   defines optKind(self) == optKOther
 //@   ensures set: c.noUseIterOfSimpleOutput
+// what a caller of a constructor learns about the option it gets
+//@ func gtree.WithTargetDir
+//@   ensures opt [C16]: result != nil && optKind(result) == optKTarget && optStr(result) == dir
+//@ func gtree.WithFileExtensions
+//@   ensures opt [C16]: result != nil && optKind(result) == optKExt && optStrs(result) == extensions
+//@ func gtree.WithStrictVerify
+//@   ensures opt [C16]: result != nil && optKind(result) == optKStrict
+//@ func gtree.WithDryRun
+//@   ensures opt [C16]: result != nil && optKind(result) == optKDry
+//@ func gtree.WithMassive
+//@   ensures opt [C16]: result != nil && optKind(result) == optKMassive
+//@ func gtree.WithEncodeJSON
+//@   ensures opt [C16]: result != nil && optKind(result) == optKJSON
+//@ func gtree.WithEncodeYAML
+//@   ensures opt [C16]: result != nil && optKind(result) == optKYAML
+//@ func gtree.WithEncodeTOML
+//@   ensures opt [C16]: result != nil && optKind(result) == optKTOML
 
 // newConfig: the defaults, then the options in order (nil options are skipped)
 //@ func gtree.newConfig
@@ -760,8 +872,10 @@ func specPreorderAll(roots []*Node, i int) []*Node {
 //@   ghostset lastConfig := result
 //@   ensures cfg [C12]: fresh(result) && (result.massive ==> result.ctx != nil)
 //@   ensures defaults [C01,C06]: len(options) == 0 ==> !result.massive && result.encode == encodeDefault && !result.dryrun && result.targetDir == "." && !result.strictVerify && !result.noUseIterOfSimpleOutput && len(result.fileExtensions) == 0
+//@   ensures wired [C16]: result.strictVerify == specHasOpt(options, optKStrict, len(options)) && result.dryrun == specHasOpt(options, optKDry, len(options)) && result.massive == specHasOpt(options, optKMassive, len(options)) && result.targetDir == specLastOptStr(options, optKTarget, len(options), ".")
 //@ loop gtree.newConfig#1
 //@   invariant ok: configOK(c) && fresh(c)
+//@   invariant wired: c.strictVerify == specHasOpt(options, optKStrict, $i) && c.dryrun == specHasOpt(options, optKDry, $i) && c.massive == specHasOpt(options, optKMassive, $i) && c.targetDir == specLastOptStr(options, optKTarget, $i, ".")
 
 //@ func gtree.initializeTree
 //@   requires nn: cfg != nil && (cfg.massive ==> cfg.ctx != nil)
@@ -944,6 +1058,7 @@ func lemmaRawAllIsRenderAll(last, mid branchFormat, roots []*Node, i int) {
 //@   ghostset libCalls := old(libCalls) + 1
 //@   ensures render [C01,C03,C12,C14,C17]: fresh(lastConfig) && (!lastConfig.massive && lastConfig.encode == encodeDefault && !lastConfig.dryrun && result == nil ==> (old(wfail) || !wfail) && (lastConfig.noUseIterOfSimpleOutput ==> (allRoots(lastForest) && out[w] == old(out[w]) ++ specRenderAll(lastConfig.lastNodeFormat, lastConfig.intermedialNodeFormat, lastForest, len(lastForest)))) && (!lastConfig.noUseIterOfSimpleOutput ==> out[w] == old(out[w]) ++ spText && spRoots == rsRoots && !rsFailed))
 //@   ensures dryfs [C09]: fsOps == old(fsOps) && fsFailed == old(fsFailed)
+//@   ensures wired [C16]: lastConfig.strictVerify == specHasOpt(options, optKStrict, len(options)) && lastConfig.dryrun == specHasOpt(options, optKDry, len(options)) && lastConfig.massive == specHasOpt(options, optKMassive, len(options)) && lastConfig.targetDir == specLastOptStr(options, optKTarget, len(options), ".")
 //@ applies fromMarkdownOutput to gtree.OutputFromMarkdown, gtree.Output
 
 //@ contract fromMarkdownWalk
@@ -1278,6 +1393,7 @@ func fsExistsAt(p string) bool { _, err := os.Stat(p); return !os.IsNotExist(err
 //@   ghostset libCalls := old(libCalls) + 1
 //@   ensures mkdir [C06,C12]: fresh(lastConfig) && (!lastConfig.massive && lastConfig.encode == encodeDefault && result == nil ==> fsFailed == old(fsFailed) && (allRoots(lastForest) && !specAnyRootExists((len(lastConfig.targetDir) != 0 ? lastConfig.targetDir : "."), lastForest, 0) && fsOps == old(fsOps) ++ specMkOpsAll((len(lastConfig.targetDir) != 0 ? lastConfig.targetDir : "."), lastConfig.fileExtensions, lastForest, len(lastForest))))
 //@   ensures validated [C07,C12]: fresh(lastConfig) && (!lastConfig.massive && lastConfig.encode == encodeDefault && fsOps != old(fsOps) ==> ((forall k int :: {lastForest[k]} 0 <= k && k < len(lastForest) ==> validated(lastForest[k]))))
+//@   ensures wired [C16]: lastConfig.strictVerify == specHasOpt(options, optKStrict, len(options)) && lastConfig.dryrun == specHasOpt(options, optKDry, len(options)) && lastConfig.massive == specHasOpt(options, optKMassive, len(options)) && lastConfig.targetDir == specLastOptStr(options, optKTarget, len(options), ".")
 //@ applies fromMarkdownMkdir to gtree.MkdirFromMarkdown, gtree.Mkdir
 
 //@ contract fromRootMkdir
@@ -1423,6 +1539,7 @@ func lemmaInBeforeContains(ks []string, x string, i int) {
 //@   ghostset libFailed := old(libFailed) || result != nil
 //@   ghostset libCalls := old(libCalls) + 1
 //@   ensures fsframe [C08,C12]: fsOps == old(fsOps) && fsFailed == old(fsFailed)
+//@   ensures wired [C16]: lastConfig.strictVerify == specHasOpt(options, optKStrict, len(options)) && lastConfig.dryrun == specHasOpt(options, optKDry, len(options)) && lastConfig.massive == specHasOpt(options, optKMassive, len(options)) && lastConfig.targetDir == specLastOptStr(options, optKTarget, len(options), ".")
 //@ applies fromMarkdownVerify to gtree.VerifyFromMarkdown, gtree.Verify
 
 //@ contract fromRootVerify
